@@ -209,10 +209,24 @@ def describe(arr):
     return {'type': type(arr).__name__}
 
 
+class _Idx:
+    """An index object that is neither int nor NumPy integer but implements __index__."""
+
+    def __init__(self, i):
+        self.i = i
+
+    def __index__(self):
+        return self.i
+
+
 def _npi(i, kind):
     """An index as a NumPy integer scalar of the requested kind (or the plain int)."""
     if not kind:
         return i
+    if kind == 'bool' and i in (0, 1):
+        return bool(i)
+    if kind == 'index_obj':
+        return _Idx(i)
     if kind == 'int32':
         return np.int32(i)
     if kind == 'uint8' and 0 <= i < 256:
@@ -404,6 +418,38 @@ class World:
         self.objs.append(self.check_result(real, cname, elems, 'new'))
         return {'r': 'ok', 'tags': [e.tag for e in elems]}
 
+    VIA = {'SO2': ['ctor_angles'], 'SE2': [], 'SO3': ['Rx', 'Ry', 'Rz'], 'SE3': ['Rx', 'Ry', 'Rz'],
+           'UnitQuaternion': [], 'Twist3': []}
+
+    def op_new_via(self, rec):
+        """A multi-valued object built by a class method from a list of angles; its elements are
+        taken as found (after a shape check) and every later list operation is judged as usual."""
+        cname, n, via = rec['cls'], max(1, int(rec['n'])), rec.get('via')
+        if via not in self.VIA.get(cname, []):
+            return {'r': 'skip'}
+        cls = self.K[cname]
+        angles = [0.05 * (self.next_tag + k) + 0.01 for k in range(n)]
+        self.next_tag += n
+        try:
+            real = cls(angles) if via == 'ctor_angles' else getattr(cls, via)(angles)
+        except Exception as e:                                   # noqa: BLE001
+            self.fail('unexpected_exception', what='%s.%s(list of angles)' % (cname, via),
+                      observed=type(e).__name__, message=str(e)[:200])
+        if type(real) is not cls:
+            self.fail('result_class', what=via, expected=cname, observed=type(real).__name__)
+        data = getattr(real, 'data', None)
+        shape = identity_value(cname).shape
+        if not isinstance(data, list) or len(data) != n or \
+                any(not isinstance(a, np.ndarray) or a.shape != shape for a in data):
+            self.fail('state', where=via, why='object built from a list of %d angles does not hold '
+                      '%d arrays of shape %s' % (n, n, list(shape)), cls=cname,
+                      observed=describe(data[0]) if isinstance(data, list) and data else str(type(data)))
+        elems = [Elem(self.next_tag + k, np.array(a)) for k, a in enumerate(data)]
+        self.next_tag += n
+        self.objs.append(Obj(cname, real, elems))
+        self.probe('p_object_from_class_method')
+        return {'r': 'ok', 'n': n}
+
     def op_empty(self, rec):
         cname = rec['cls']
         _, real = self.run_call(lambda: self.K[cname].Empty(), 'ok', 'Empty()')
@@ -491,7 +537,11 @@ class World:
         x = self.ref(rec['x'])
         if x is None:
             return {'r': 'skip'}
-        sl = slice(rec['start'], rec['stop'], rec['step'])
+        b = [rec['start'], rec['stop'], rec['step']]
+        if rec.get('npbounds'):
+            b = [np.int64(v) if v is not None else None for v in b]
+            self.probe('p_slice_numpy_int_bounds')
+        sl = slice(*b)
         elems = x.model[sl]
         _, r = self.run_call(lambda: x.real[sl], 'ok', 'x[start:stop:step]')
         o = self.check_result(r, x.cname, elems, 'x[start:stop:step]')
@@ -804,7 +854,7 @@ PROBES = ['slice_empty_result', 'slice_negative_step', 'slice_bound_beyond_len',
           'operand_shares_element_with_receiver', 'pop_empty', 'insert_beyond_end',
           'setitem_negative', 'get_negative', 'parent_into_child', 'child_into_parent',
           'rejected_then_accepted', 'alloc_zero', 'from_list_ok', 'special_values',
-          'reversed_iteration', 'overlapping_iterations', 'mutation_during_iteration', 'op_on_len_ge_10', 'op_on_len_ge_17', 'op_on_len_ge_33',
+          'object_from_class_method', 'slice_numpy_int_bounds', 'reversed_iteration', 'overlapping_iterations', 'mutation_during_iteration', 'op_on_len_ge_10', 'op_on_len_ge_17', 'op_on_len_ge_33',
           'from_list_bad_item_next_to_empty_item', 'extend_by_len_0',
           'extend_by_len_1', 'extend_by_len_2']
 
@@ -882,6 +932,8 @@ def _index(rng, n, cfg, bad):
 
 def _bound(rng, n):
     r = rng.random()
+    if r < 0.02:
+        return rng.choice([10 ** 18, -10 ** 18, 2 ** 31, -2 ** 31 - 1])
     if r < 0.3:
         return None
     if r < (0.8 if n <= 7 else 0.45):
@@ -890,7 +942,7 @@ def _bound(rng, n):
 
 
 def _npkind(rng):
-    return rng.choice(['int64', 'int32', 'uint8', 'intp']) if rng.random() < 0.12 else False
+    return rng.choice(['int64', 'int32', 'uint8', 'intp', 'bool', 'index_obj']) if rng.random() < 0.15 else False
 
 
 def gen_init(cfg, rng):
@@ -928,6 +980,12 @@ def gen_step(world, cfg, rng):
     x = objs[xi]
     n = len(x.model)
 
+    if op == 'new' and rng.random() < 0.25:
+        c = rng.choice(cfg['classes'])
+        vias = World.VIA.get(c, [])
+        if vias:
+            return {'op': 'new_via', 'cls': c, 'n': rng.randint(1, 4 * cfg.get('scale', 1)),
+                    'via': rng.choice(vias)}
     if op == 'new':
         return _new_rec(rng.choice(cfg['classes']), rng.randint(1, 4 * cfg.get('scale', 1)), cfg, rng)
     if op == 'empty':
@@ -955,7 +1013,7 @@ def gen_step(world, cfg, rng):
     if op == 'getslice':
         return {'op': 'getslice', 'x': xi, 'start': _bound(rng, n), 'stop': _bound(rng, n),
                 'step': rng.choice([None, None, None, 1, -1, 2, -2, 3, -3]),
-                'keep': rng.random() < 0.5}
+                'keep': rng.random() < 0.5, 'npbounds': rng.random() < 0.08}
     if op == 'pop':
         i = None if rng.random() < 0.4 else _index(rng, n, cfg, fault == 'bad_index')
         return {'op': 'pop', 'x': xi, 'i': i, 'keep': rng.random() < 0.4,
@@ -1081,7 +1139,7 @@ def simplify(rec):
     out = []
     if rec.get('mode') not in (None, 'plain'):
         out.append(dict(rec, mode='plain'))
-    for key in ('keep', 'npint', 'as', 'rev', 'special'):
+    for key in ('keep', 'npint', 'as', 'rev', 'special', 'npbounds'):
         if rec.get(key):
             r = dict(rec)
             r.pop(key)
